@@ -62,6 +62,12 @@ MISSED = [
  ("C13-h (tail rows stay in the buffer after the forced flush)", "one session per writer object", "second initialise / append / finalise session on the same writer"),
  ("C15-h (`group_without_decoys` writes into the `Proteins` object's map)", "no target-only FASTA in C15, one call per object", "`target_only_reuse` class (its first run on the unchanged tree exposed **D24**)"),
  ("C20-h (a non-PepXML file among valid ones is skipped silently)", "foreign files only on their own", "foreign / text files before, after and between valid PepXML files"),
+ ("C07-i (best-feature values assigned only after a successful fit + `feat_pass or 0`)", "*reached* but reported as inconclusive: the monitor formatted `int(m.feat_pass)` of a `None`", "harness bug fixed (None-tolerant witness)"),
+ ("C11-i (`groupby('fold')` + positional enumerate in `_predict`)", "C11's oracle grouped rows by the model that scored them, whichever that was (C02 caught the change)", "prediction chunk sizes leaving 1..3 trailing rows; a row calibrated by a model that trained on it is a violation"),
+ ("C12-i (features in DataFrame order vs `feature_columns` order)", "*reached* (refit data set) but the garbage row ids raised `KeyError` in the monitor", "row ids that are no row ids are reported as `estimator_received_columns_in_unexpected_order`"),
+ ("C13-i (one-shot Parquet `write()` keeps the frame's index)", "writers were only fed through `append_data`", "one-shot `write()` of mask-selected / re-ordered frames, read back whole and in chunks"),
+ ("C15-i (protein level built from the level before it instead of the peptide level)", "no further roll-up levels together with proteins", "a third of the C15 file tables carry PeptideGroup (and ModifiedPeptide) columns"),
+ ("C16-i (`decoy_prefix` not handed on: decoys listed as targets)", "only the pairing of targets was checked", "`decoy_listed_as_target` clause in the grouping oracle"),
  ("C12-d (new scoring block size, last row unscored when n % size == 1)", "the constant did not exist when the monitors were written; tables are far smaller than its default", "tunables are discovered in `mokapot.constants` at run time; C05 adds a variant per discovered constant, C12 a metamorphic refit under small values of it"),
 ]
 seed_rows = ["| seeded change | needs | result |", "|---|---|---|"]
